@@ -26,9 +26,10 @@ PATH_SECONDS = 10
 ORACLE_TIMEOUT = 5
 MAX_DECISIONS = 4000
 
-PREFIXES = ["", "\"\\x", "'\\x", "\"\\", "0x", "0b", "0x1", "0b1", "1.", "1_", "1", "//a", "//",
+PREFIXES = ["", "return", "return;", "do return; end", "fn() return;", "def f() do return; end", "\"\\x", "'\\x", "\"\\", "0x", "0b", "0x1", "0b1", "1.", "1_", "1", "//a", "//",
             "a.", "..", "<", "<<", ">>", "!", "-", "/", "#", "def ", "f(", "a ", "'", "\"", "0"]
-PATTERN_POOL = ["//[//", "//(//", "//*//", "//\\//", "//(?P<//", "//a{2,1}//", "//a//", "//[a-z]+//",
+PATTERN_POOL = ["//a{99999999999999999999}//", "//(?i)(?-i)a//", "//" + "(" * 120 + ")" * 120 + "//", "//a{1,99999999999}//",
+                "//[//", "//(//", "//*//", "//\\//", "//(?P<//", "//a{2,1}//", "//a//", "//[a-z]+//",
                 "//)//", "//+//", "//?//", "//a**//", "//(?<x)//", "//[z-a]//", "//\\1//"]
 
 
@@ -87,6 +88,8 @@ def cells(tier, seed):
 def classify(ctx, out, key):
     if out.kind == "ok":
         ctx.reach("node")
+        ctx.check(out.value is not None and hasattr(out.value, "evaluate"), key + ":parse-result-is-not-a-program",
+                  lambda: repr(out.value))
         return ["node"]
     if out.kind == "syn":
         ctx.reach("syntax-error")
